@@ -164,7 +164,24 @@ def r3_reads_clone_and_mutation_needs_lvalue(ctx):
                 ctx.bad("index-read|from-private-copy", ev.where(c.block), "an index read takes its element out of `%s`" % src[:60])
 
 
-RULES = [("C05-R1", r1_no_shallow_copy_possible), ("C05-R2", r2_deep_clone_complete), ("C05-R3", r3_reads_clone_and_mutation_needs_lvalue)]
+def r4_mutation_target_is_the_lexical_variable(ctx):
+    """An in-place mutation reaches the array of the variable its base name is *bound* to (shared with C04-R5c): if the
+    binding query misses, the base is looked up by name on the dynamic scope stack and a caller's same-named array is
+    mutated instead - a mutation becomes visible through another name."""
+    from .c04 import r5c_query_on_the_variable_node
+    r5c_query_on_the_variable_node(ctx)
+
+
+def r5_storing_copies_every_item(ctx):
+    """Every routine that moves a value between storage classes (promote / detach / clone_into) visits all items of an array
+    and returns a new vector (shared with C02-R5): an item that is passed through keeps borrowing the source array's string
+    slot, so the copy changes when the source element is overwritten."""
+    from .c02 import r5_promotion_complete
+    r5_promotion_complete(ctx)
+
+
+RULES = [("C05-R1", r1_no_shallow_copy_possible), ("C05-R2", r2_deep_clone_complete), ("C05-R3", r3_reads_clone_and_mutation_needs_lvalue),
+         ("C05-R4", r4_mutation_target_is_the_lexical_variable), ("C05-R5", r5_storing_copies_every_item)]
 
 
 def extra_thorough(ctx):
@@ -173,12 +190,12 @@ def extra_thorough(ctx):
 
 EXPLANATION = (
     "In safe Rust a Vec<Value> has one owner, so aliasing an array needs Clone or unsafe code; the rules pin those gaps. R1: "
-    "Value and HostHandle implement neither Clone nor Copy (impl census; compile-fail witnesses exist for the thorough tier) "
+    "Value and HostHandle implement neither Clone nor Copy (impl census over the type-checked crate) "
     "and ArenaCow::clone only ever produces a borrow of immutable text. R2: Value::clone_into builds a fresh vector from deep "
     "clones of every item, deep-clones host handles, and the process value types copy every field. R3: every variable read "
     "goes through the cloning accessors; mutable access to the environment is obtained only in the audited l-value functions, "
     "which are called only from the mutating dispatchers and never evaluate their receiver as an expression; an index read "
-    "moves its element out of the reader's private copy. Element promotion on store is C02-R1, unchecked indexing C06-R4. "
+    "moves its element out of the reader's private copy. R4 (= C04-R5c): the binding of an in-place mutation is queried on the Expr::Var node itself, and flatten_index_target returns that node, so the mutated array is the lexically bound one. R5 (= C02-R5): promote / detach / clone_into visit every item of an array and return a new vector - no pass-through of the incoming vector. Unchecked indexing is C06-R4. "
     "Not decided: independence after arbitrary mutation sequences (it follows from ownership given the above - an argument, "
     "not a check)."
 )
